@@ -27,6 +27,10 @@ TOE == /\ Ev("OE")
        /\ [i \in 1..Len(last'.data) |-> Val(last'.data[i])] = E.data
        /\ (E.late => ~Honours)  \* promptly - unless the transport ignores deadlines (deviation DeadlineNoop)
        /\ E.helpers = 0         \* no ctxio helper goroutine is left once the operation has returned
+       \* the read deadline the connection is left with: none after the cancel path (reset, 75/110/145) and after
+       \* an operation whose context has no deadline (53/88/123 set it from the context every time), the
+       \* context's own deadline otherwise - never the one in the past, never an earlier operation's
+       /\ E.rdl \in {"unknown", IF last'.err = "ctx" THEN "none" ELSE IF op.ctx = "deadline" THEN "ctxdl" ELSE "none"}
 (* the driver found the operation still blocked when everything had settled: the model must agree *)
 (* that nothing can move (otherwise the real code is stuck where the specification is not)         *)
 TOpFail == /\ Ev("OPFAIL") /\ op # NoOp /\ ~ENABLED (HelperNext \/ CallerNext) /\ UNCHANGED vars
